@@ -21,6 +21,9 @@ theorem C18_sound (prog : List Stmt) (params : List Nat) (s0 : St)
     ∀ s, Reach prog s0 s → ∀ l, l < s0.next → s.heap l = s0.heap l :=
   fun s hr => (sound prog params s0 hc h0 s hr).2
 
+-- non-vacuity of the entry hypothesis: a state in which only parameter 0 reaches the (one) pre-existing buffer
+example : ∃ s0 : St, s0.next = 1 ∧ ∀ x l, s0.env x l → l < s0.next → [0].contains x = true :=
+  ⟨{ env := fun x l => x = 0 ∧ l = 0, heap := fun _ => 7, next := 1 }, rfl, by intro x l h _; simp [h.1]⟩
 -- non-vacuity: `check` accepts a copy-then-modify routine and rejects modify-through-a-view
 example : check [.alias 1 [0], .fresh 2, .mutate 2, .ret [2]] [0] = true := by decide
 example : check [.alias 1 [0], .mutate 1] [0] = false := by decide
